@@ -375,7 +375,43 @@ def r6_kdf_passthrough(ctx):
     r7_nonce_layout(_P(ctx))
 
 
+def r7_emitted_key_encrypted(ctx):
+    """The key that is emitted (file AND stdout) is the one whose private section was encrypted
+    under the new password (otherwise the saved key unlocks with any password)."""
+    from .c05 import taint
+    from ..terms import contains as _contains
+
+    corpus = ctx.corpus
+    n = 0
+    for cmd, variants in (('init', [{}]), ('add_key', [{'shared': True}, {'shared': False}])):
+        fn = corpus.func('repository', f'Repository.{cmd}')
+        for extra in variants:
+            modes = {'encrypted': True}
+            modes.update(extra)
+            ev = evaluate(corpus, fn, modes=modes, depth=7, nonnull={'password'})
+            for e in ev.events:
+                sink = None
+                if e.method in ('write_bytes', 'write_text', 'write') and e.receiver is not None and _contains(e.receiver, lambda y: y == ('param', 'key_output_path')):
+                    sink = ('key file', e.args[0] if e.args else None)
+                elif e.callee == ('name', 'print') and e.args and e.func is not None and e.func.name in ('init', '_add_key', 'add_key') and _contains(e.args[0], lambda y: y == ('const', 'private') or y == ('const', 'kdf_params')):
+                    sink = ('stdout', e.args[0])
+                if sink is None or sink[1] is None:
+                    continue
+                n += 1
+                r = taint(sink[1])
+                ctx.check(
+                    r is None,
+                    'C17.R5',
+                    f'{func_label(e.func)}|emitted-key-is-the-encrypted-key:{sink[0]}',
+                    e.loc,
+                    f'{cmd}{extra or ""}: the key emitted to {sink[0]} has its private section encrypted under the new password',
+                    f'{cmd}: the key emitted to {sink[0]} carries an unencrypted private section ({r[0] if r else ""}): saved to a file it unlocks the repository with ANY password',
+                )
+    ctx.floor('C17.R5', 'key emission sinks', n, 4)
+
+
 def run(ctx):
+    r7_emitted_key_encrypted(ctx)
     r1_validate_before_upload(ctx)
     r2_parameters(ctx)
     r3_validator_consumers(ctx)
